@@ -1,6 +1,6 @@
 (* Union/PropsX.v — C07, extension: key flags, Len, write sequence number, snapshot reads of the buffer.
    Only statements; proofs in ProofsX.v. *)
-From Verif Require Import Base.Lex Union.Model Union.ModelX Union.ProofsMap Union.ProofsBuf Union.ProofsX Union.ProofsSize.
+From Verif Require Import Base.Lex Union.Model Union.ModelX Union.ProofsMap Union.ProofsBuf Union.ProofsX Union.ProofsSize Union.ProofsPropsX.
 
 Notation sorted := (dsorted false).
 
@@ -30,7 +30,7 @@ Theorem C07_flags_undo : forall st n stages' cp' k, sorted (x_kf st) ->
   x_get_flags (xrevert_to st n stages' cp') k =
     if is_some (kv_get (firstn cnt log) k) && negb (is_some (kv_get (skipn cnt log) k))
     then mask_flags (x_get_flags st k) else x_get_flags st k.
-Proof. intros st n stages' cp' k Hs. exact (proj2 (xrevert_flags st n stages' cp' k Hs)). Qed.
+Proof. exact C07_flags_undo_proof. Qed.
 Print Assumptions C07_flags_undo.
 
 (* Consequence, over all operation sequences inside a staging level: for a key that had a buffered value
@@ -42,19 +42,7 @@ Theorem C07_flags_survive_cleanup : forall st ops k,
   Forall (fun o => scoped_op h (checkpoint_pos (x_b st)) (erase o)) ops ->
   handle_live (x_b (xrun ops st1)) h = true ->
   x_get_flags (fst (xstep (xrun ops st1) (XCleanup h))) k = x_get_flags (xrun ops st1) k.
-Proof.
-  intros st ops k Hwf Hk st1 h Ho Hl.
-  pose proof (xinv_run _ _ ops st1 (invp_staging true (x_b st)) Ho) as [(x & extra & HL & HS & HF) _].
-  assert (extra = []) by (eapply live_no_extra; [exact HS|exact Hl|reflexivity]).
-  subst extra. cbn [app] in HS.
-  assert (Hwf' : xwf (xrun ops st1)) by (apply xwf_run; apply (xwf_step st XStaging); exact Hwf).
-  cbn [xstep]. rewrite Hl. cbn [fst]. unfold x_get_flags.
-  rewrite (proj2 (xrevert_flags (xrun ops st1) _ _ _ k (proj1 Hwf'))).
-  rewrite HS, HL. cbn [hd]. rewrite app_length.
-  replace (length x + length (b_log (x_b st)) - length (b_log (x_b st)))%nat with (length x) by lia.
-  rewrite skipn_app, skipn_all, Nat.sub_diag. cbn [skipn app].
-  destruct (kv_get (b_log (x_b st)) k); [|congruence]. cbn [is_some negb]. rewrite Bool.andb_false_r. reflexivity.
-Qed.
+Proof. exact C07_flags_survive_cleanup_proof. Qed.
 Print Assumptions C07_flags_survive_cleanup.
 
 (* hence "Cleanup restores the flags" is false for the code as it is *)
@@ -65,12 +53,7 @@ Theorem C07_cleanup_restores_flags_refuted : exists st ops k,
   Forall (fun o => scoped_op h (checkpoint_pos (x_b st)) (erase o)) ops /\
   handle_live (x_b (xrun ops st1)) h = true /\
   x_get_flags (fst (xstep (xrun ops st1) (XCleanup h))) k <> x_get_flags st k.
-Proof.
-  exists (xrun [XWrite [97] [120] []] xbuf_empty), [XFlags [97] [0%nat]], [97].
-  split; [apply xwf_run; apply xwf_empty|].
-  split; [repeat constructor|]. split; [vm_compute; reflexivity|].
-  vm_compute. discriminate.
-Qed.
+Proof. exact C07_cleanup_restores_flags_refuted_proof. Qed.
 Print Assumptions C07_cleanup_restores_flags_refuted.
 
 (* Len: in every reachable state the flag table is strictly sorted, Len is its size — the number of existing
@@ -81,11 +64,7 @@ Theorem C07_len : forall ops,
   sorted (x_kf st) /\
   x_len st = N.of_nat (length (x_kf st)) /\
   (forall k, buf_get (x_b st) k <> None -> x_get_flags st k <> None).
-Proof.
-  intros ops st. destruct (xwf_run ops xbuf_empty xwf_empty) as (Hs & Hl & Hk).
-  split; [exact Hs|]. split; [exact Hl|].
-  intros k H. unfold x_get_flags. rewrite fl_get_kv_get. apply Hk. exact H.
-Qed.
+Proof. exact C07_len_proof. Qed.
 Print Assumptions C07_len.
 
 (* Size: after ANY operation sequence from the empty buffer (writes with flag ops, deletes, flag updates, limits
@@ -120,16 +99,7 @@ Theorem C07_snapshot_ignores_staging : forall st ops k lo hi,
    x_snap_get (xrun ops st1) k = buf_get (x_b st) k /\
    x_snap_iter (xrun ops st1) lo hi = range lo hi (buf_map (x_b st)) /\
    x_snap_iter_rev (xrun ops st1) lo hi = rev (range lo hi (buf_map (x_b st)))).
-Proof.
-  intros st ops k lo hi H0. split.
-  - unfold x_snap_get, base_log. rewrite H0. reflexivity.
-  - intros st1 Ho.
-    assert (Hi : invp true (b_log (x_b st)) [length (b_log (x_b st))] (x_b st1)).
-    { pose proof (invp_staging true (x_b st)) as Hi. rewrite H0 in Hi. exact Hi. }
-    apply (xinv_run _ _ ops st1) in Hi; [|exact Ho]. destruct Hi as [Hi _].
-    pose proof (base_log_inv _ _ Hi) as E.
-    unfold x_snap_get, x_snap_iter, x_snap_iter_rev, x_snap_map. rewrite E. repeat split; reflexivity.
-Qed.
+Proof. exact C07_snapshot_ignores_staging_proof. Qed.
 Print Assumptions C07_snapshot_ignores_staging.
 
 (* ---------- non-vacuity ---------- *)
